@@ -120,7 +120,10 @@ CLAIMED = {
         text='Machine-checked proof (Coq, reals) over the model of ThermochemIncomplete.update / GroupLibrary.Update / the include driver, '
              'whose step returns the new state AND what was raised: a rejection (read-only-data, incomplete-data) leaves the correlation '
              'unchanged; a successful merge keeps T_ref, takes the union of ranges, and its table is the union map (other wins); a conflicting '
-             'datum is rejected; overwrite never is; a file naming one group twice is rejected and distinct names are all accepted. '
+             'datum is rejected; overwrite never is; a file naming one group twice is rejected and distinct names are all accepted; ORDER-FREENESS of '
+             'the Cp table and the valid range: a table is accepted iff its data agree with what is there, whether two files are both accepted does '
+             'not depend on their order, and when they are the merged table is the same map and the merged range the same interval (for the '
+             'reference values H, S and whole include trees order-freeness is decided by the tree oracle). '
              'Tie: correspondence of update sequences (state after every step) and of include trees; direct oracle: union / conflict / '
              'atomicity / idempotence on sequences, and all include orders and nestings (star, chain) of split data loading to equal contents.',
         design='5 / C13',
